@@ -195,11 +195,11 @@ func init() {
 		ID: "C06",
 		Explanation: "Decides structural necessary conditions of 'formatting loses nothing': every token the parser accepts is represented or " +
 			"diagnosed and every end-of-line comment is recorded before its line is skipped (R-EOLSTATE, comment clause included); the formatter " +
-			"has a case for every node kind, so it never prints its placeholder (R-EXHAUST/format); every array/map literal node is registered " +
-			"in the layout table on every path that returns it (R-LAYOUTKEY).",
+			"has a case for every node kind, so it never prints its placeholder (R-EXHAUST/format), and reads every source-bearing field of every " +
+			"node type (R-FIELDCOV/format); every array/map literal node is registered in the layout table on every path that returns it (R-LAYOUTKEY).",
 		NotDecided:  "Token-sequence equality, re-parse equality, comment placement inside multi-line literals, expression re-binding — these need the output text.",
 		Assumptions: []string{},
-		Rules:       []*Rule{ruleEOLState, exhaustRule("format", 25), ruleLayoutKey, ruleNoInPlace},
+		Rules:       []*Rule{ruleEOLState, exhaustRule("format", 25), fieldCovRule("format"), ruleLayoutKey, ruleNoInPlace},
 	})
 }
 
@@ -224,11 +224,11 @@ func init() {
 			"declared signature that the parser enforces, every args[i] of a variadic built-in is behind a length guard, assertions on the content " +
 			"of an any are comma-ok (R-BUILTINSIG); user numbers reach integer conversions and allocation sizes only through NaN/Inf/fraction-safe " +
 			"guards (R-F2I with its allocation clause, evaluator); eval has a case for every node kind the parser defines and fails with an error " +
-			"otherwise (R-EXHAUST/eval); accepted values enter any-typed slots only through wrapAny (R-ACCEPTWRAP); non-literal expressions never " +
+			"otherwise (R-EXHAUST/eval) and consumes every child field of every node type (R-FIELDCOV/eval); accepted values enter any-typed slots only through wrapAny (R-ACCEPTWRAP); non-literal expressions never " +
 			"carry a convertible type into wrapAny (R-FIXED); scopes are paired so a variable's run-time value has its static type (R-SCOPEPAIR/evaluator).",
 		NotDecided:  "That the parser's typing of operands matches the evaluator's assertions in evalBinaryExpr/normalizeIndex beyond the operator matrix, panics inside the Go standard library for exotic values, memory exhaustion.",
 		Assumptions: []string{"element assertions inside array arguments (poly) are not checked"},
-		Rules:       []*Rule{ruleBuiltinSig, f2iRule("pkg/evaluator", 4), exhaustRule("eval", 25), ruleAcceptWrap, ruleFixed, ruleScopePairEval, ruleMapEq, ruleTermConj, ruleEvalMisc},
+		Rules:       []*Rule{ruleBuiltinSig, f2iRule("pkg/evaluator", 4), exhaustRule("eval", 25), fieldCovRule("eval"), ruleAcceptWrap, ruleFixed, ruleScopePairEval, ruleMapEq, ruleTermConj, ruleEvalMisc},
 	})
 	Register(&Property{
 		ID: "C13",
@@ -276,13 +276,13 @@ func init() {
 	Register(&Property{
 		ID: "C16",
 		Explanation: "Decides structural necessary conditions of 'the VM behaves like the evaluator': the compiler rejects what it cannot translate " +
-			"(R-EXHAUST/Compile); compiler and evaluator implement the same operator matrix or the compiler rejects the rest (R-DISPATCH); the same " +
+			"(R-EXHAUST/Compile) and consumes every child field of the node kinds it accepts (R-FIELDCOV/Compile); compiler and evaluator implement the same operator matrix or the compiler rejects the rest (R-DISPATCH); the same " +
 			"scope structure for loop variables (R-LOOPVARSCOPE) and the same declaration order (initialiser before definition); the same value " +
 			"discipline: fresh containers, no lost updates on by-value copies (R-VMVALUES); strings handled by code point (R-RUNES/pkg/bytecode); " +
 			"user numbers become indexes only through NaN/fraction-safe guards (R-F2I/pkg/bytecode).",
 		NotDecided:  "Equality of final globals in general; slot arithmetic of the symbol table; constant pooling.",
 		Assumptions: []string{},
-		Rules:       []*Rule{exhaustRule("Compile", 20), ruleDispatch, ruleLoopVarScope, ruleVMValues, runesRule("pkg/bytecode", "stringVal", 4), f2iRule("pkg/bytecode", 2), ruleSlotMax},
+		Rules:       []*Rule{exhaustRule("Compile", 20), fieldCovRule("Compile"), ruleDispatch, ruleLoopVarScope, ruleVMValues, runesRule("pkg/bytecode", "stringVal", 4), f2iRule("pkg/bytecode", 2), ruleSlotMax},
 	})
 }
 
